@@ -24,6 +24,8 @@ HISTORIES = {
     "engine2": [("new", 1), ("nodes", None), ("compute", None), ("new", 0), ("nodes", None), ("compute", None)],
     "subset": [("new", 1), ("nodes", None), ("compute", None), ("set_options", 0), ("nodes", "drop-last"), ("compute", None)],
     "stale": [("stale", None), ("new", 0), ("nodes", None), ("compute", None)],
+    # two engines alive at once with different configurations; the FIRST one is used after the second was configured
+    "interleaved": [("new", 0), ("keep", None), ("new", 1), ("restore", None), ("nodes", None), ("compute", None)],
 }
 
 
@@ -166,6 +168,11 @@ def scenario(cfg, val, fresh_only=False):
             o = dict(osets[arg])
             o["nodeSpacing"] = sc.s
             f.set_options(o)
+        elif op == "keep":
+            kept = f
+        elif op == "restore":
+            sc.other_engine = f
+            f = kept
         elif op == "stale":
             # arbitrary stale state on the label objects: position, layer index, overlap count, a dangling stub
             for i, nd in enumerate(sc.nodes):
